@@ -76,3 +76,137 @@ def solver_argument_binding(ctx):
         raise AnalysisError("argument binding: only %d forwarded names found in the solver modules" % total)
     bad = ast.parse("def imp(A, b, tol, maxiter, restart):\n    pass\n\ndef gmres(A, b, tol, restart, maxiter):\n    return imp(A, b, tol, restart, maxiter)\n")
     r.must_fire(len(mismatches(bad)[1]) == 2, "restart and maxiter exchanged between dispatcher and implementation")
+
+
+# (caller, callee, parameter): reviewed sites where the value is deliberately not passed on
+NOT_FORWARDED = {
+    # the coarse DP0 space is built only for its support / dof numbering; both options have no effect on DP0 spaces, and
+    # dual1_function_space itself warns that include_boundary_dofs is ignored
+    ("dual1_function_space", "p0_discontinuous_function_space", "include_boundary_dofs"),
+    ("dual1_function_space", "p0_discontinuous_function_space", "truncate_at_segment_edge"),
+}
+
+
+def dropped(repo):
+    """(judged, [(rel, caller, line, callee, parameter)]): optional parameters of a callee that the caller also has under
+    the same name but does not pass on.  Callees: functions of the same module, and `super().<same method>` with the
+    base class defined in the package."""
+    classes = {}
+    mods = [repo.mod(rel) for rel in repo.py_files("bempp_cl")]
+    for m in mods:
+        for cn in m.classes:
+            classes.setdefault(cn, []).append(m)
+    judged, out = 0, []
+    byrel = {m.rel: m for m in mods}
+
+    def aliases_of(m, caller):
+        al = dict(m.aliases)
+        for n in ast.walk(caller):
+            if isinstance(n, ast.ImportFrom):
+                for a in n.names:
+                    al[a.asname or a.name] = ("." * n.level) + (n.module or "") + "." + a.name
+            elif isinstance(n, ast.Import):
+                for a in n.names:
+                    al[a.asname or a.name.split(".")[0]] = a.name
+        return al
+
+    def resolve(rel, dotted):
+        if dotted.startswith("."):
+            lvl = len(dotted) - len(dotted.lstrip("."))
+            base = rel.split("/")[:-1]
+            parts = base[: len(base) - (lvl - 1)] + [x for x in dotted.lstrip(".").split(".") if x]
+        else:
+            parts = dotted.split(".")
+        for k in (len(parts), len(parts) - 1):
+            if k > 0:
+                for f in ("/".join(parts[:k]) + ".py", "/".join(parts[:k]) + "/__init__.py"):
+                    if f in byrel:
+                        return f, parts[k:]
+        return None, None
+
+    def judge(rel, qn, caller, c, callee, skip, every):
+        nonlocal judged
+        if any(isinstance(a, ast.Starred) for a in c.args) or any(k.arg is None for k in c.keywords):
+            return
+        params = arg_names(callee)[skip:]
+        nd = len(callee.args.defaults)
+        cand = params if every else (params[len(params) - nd:] if nd else [])
+        bound = set(params[: len(c.args)]) | {k.arg for k in c.keywords}
+        mine = set(arg_names(caller))
+        for p in cand:
+            if p in mine:
+                judged += 1
+                if p not in bound:
+                    out.append((rel, qn, c.lineno, callee.name, p))
+
+    for m in mods:
+        fns = {n.name: n for n in m.tree.body if isinstance(n, ast.FunctionDef)}
+        for qn, caller in m.functions.items():
+            if "<" in qn:
+                continue
+            al = None
+            for c in ast.walk(caller):
+                if not isinstance(c, ast.Call):
+                    continue
+                if isinstance(c.func, ast.Name) and c.func.id in fns and c.func.id != caller.name:
+                    judge(m.rel, qn, caller, c, fns[c.func.id], 0, False)
+                elif isinstance(c.func, ast.Attribute) and c.func.attr == caller.name and isinstance(c.func.value, ast.Call) and unparse(c.func.value.func) == "super" and "." in qn:
+                    for b in m.classes[qn.split(".")[0]].bases:
+                        bn = unparse(b).split(".")[-1]
+                        for m2 in classes.get(bn, []):
+                            f = m2.functions.get(bn + "." + caller.name)
+                            if f is not None:
+                                judge(m.rel, qn, caller, c, f, 1, False)
+                else:  # a function / class of another module of the package, reached through an import
+                    txt = unparse(c.func)
+                    head = txt.split(".")[0]
+                    al = aliases_of(m, caller) if al is None else al
+                    if head in al and head not in fns:
+                        f2, rest = resolve(m.rel, al[head] + txt[len(head):])
+                        if f2 is not None and len(rest) == 1:
+                            m2 = byrel[f2]
+                            if rest[0] in m2.functions:
+                                judge(m.rel, qn, caller, c, m2.functions[rest[0]], 0, False)
+                            elif rest[0] in m2.classes and rest[0] + ".__init__" in m2.functions:
+                                judge(m.rel, qn, caller, c, m2.functions[rest[0] + ".__init__"], 1, False)
+    out = [o for o in out if (o[1], o[3], o[4]) not in NOT_FORWARDED]
+    return judged, out
+
+
+def forwarded_optionals(ctx, rule_id="ARG-FORWARDED"):
+    """A function that accepts an optional argument and delegates to a callee with an optional parameter of the same name
+    passes it on.  Otherwise the callee silently takes its default (for `parameters=None`: the mutable global parameter
+    object) and the value the user gave has no effect on the result."""
+    r = ctx.rule(rule_id, "package-wide: an optional parameter of a package function / constructor or of the base-class method reached through super() that the caller also has under the same name is passed on, not left to its default", 1)
+    judged, bad = dropped(ctx.repo)
+    if judged < 150:
+        raise AnalysisError("forwarded optionals: only %d sites found in the package" % judged)
+    for rel, qn, line, callee, p in bad:
+        r.fail("%s::%s -> %s: %s" % (rel.rsplit("/", 1)[-1], qn, callee, p), rel, qn, line, "call of %s(...) in %s" % (callee, qn),
+               "%s accepts `%s` but does not pass it to %s, which then uses its default (for a parameter object: the global one): the given value is ignored" % (qn, p, callee))
+    if not bad:
+        r.ok("%d optional parameters passed on" % judged)
+
+    class _R:
+        def __init__(self, src):
+            from .src import Module
+            self.m = Module.__new__(Module)
+            tree = ast.parse(src)
+            self.m.rel, self.m.tree, self.m.classes, self.m.functions, self.m.aliases = "x.py", tree, {}, {}, {}
+            for n in tree.body:
+                if isinstance(n, ast.ClassDef):
+                    self.m.classes[n.name] = n
+                    for s in n.body:
+                        if isinstance(s, ast.FunctionDef):
+                            self.m.functions[n.name + "." + s.name] = s
+                elif isinstance(n, ast.FunctionDef):
+                    self.m.functions[n.name] = n
+
+        def py_files(self, sub):
+            return ["x.py"]
+
+        def mod(self, rel):
+            return self.m
+
+    src = "class Base:\n    def __init__(self, domain, dual, parameters=None):\n        pass\n\nclass Dense(Base):\n    def __init__(self, domain, dual, parameters=None):\n        super().__init__(domain, dual%s)\n"
+    r.must_fire(len(dropped(_R(src % ""))[1]) == 1 and not dropped(_R(src % ", parameters"))[1], "constructor that does not hand `parameters` to its base class")
